@@ -4,7 +4,7 @@
    trivia); declarations and statements are decided by the search (see tools/props/C01.py). *)
 From Coq Require Import List NArith Bool String Arith.
 From Verif Require Import Base.Res Gen.GenTokens Gen.GenPrec Model.Lexer Model.ExprParser Proofs.ExprParserProofs Proofs.ExprInstance.
-From Verif Require Model.StParser Model.DeclParser Model.StInstance Proofs.StExprProofs Proofs.StStmtProofs Proofs.StInstanceProofs Proofs.DeclProofs Proofs.DeclInstanceProofs Proofs.LibProofs.
+From Verif Require Model.StParser Model.DeclParser Model.StInstance Proofs.StExprProofs Proofs.StStmtProofs Proofs.StInstanceProofs Proofs.DeclProofs Proofs.TypeProofs Proofs.DeclInstanceProofs Proofs.LibProofs.
 Import ListNotations.
 Local Open Scope string_scope.
 
@@ -119,3 +119,21 @@ Proof. exact LibProofs.parse_lib_spelled. Qed.
 Theorem C01_unit_faithful : forall u rest F, LibProofs.wf_u u -> (LibProofs.size_u u + 1 <= F)%nat ->
   StInstance.parse_unit F (LibProofs.flat_u u ++ rest) = StInstance.UOk (LibProofs.erase_u u) rest.
 Proof. exact LibProofs.parse_unit_spelled. Qed.
+
+(* A library that mixes TYPE blocks with function blocks and programs.  A TYPE block declares arrays (with any number of
+   subranges, of an elementary or a named type), subranges of an integer type (with or without a default), enumerations
+   given by their values (with or without a default), enumerations of another enumeration with a default, elementary types
+   with a constant default, and names bound later to another type; the entry point returns every declaration with its name,
+   bounds (sign and magnitude), values and defaults, in source order, interleaved with the units exactly as written. *)
+Theorem C01_types_faithful : forall (l : list LibProofs.swe) wend,
+  Forall LibProofs.wf_we l -> StExprProofs.all_triv token StInstance.tok_class wend ->
+  StInstance.parse_lib2_tokens (LibProofs.flat_lib2 l ++ wend) = StInstance.O4Parsed (map LibProofs.erase_we l).
+Proof. exact LibProofs.parse_lib2_spelled. Qed.
+
+(* one TYPE block, at any fuel that covers its size, whatever follows it *)
+Theorem C01_type_block_faithful : forall b rest F,
+  TypeProofs.wf_tb token StInstance.tok_class StInstance.is_int_ty b -> (TypeProofs.size_tb token b <= F)%nat ->
+  DeclParser.type_block token StInstance.tok_class t_text StInstance.tok_num StInstance.ty_name StInstance.is_int_ty F
+    (TypeProofs.flat_tb token b ++ rest) =
+  DeclParser.DOk (TypeProofs.erase_tb token StInstance.tok_class t_text StInstance.tok_num StInstance.ty_name b, rest).
+Proof. exact (TypeProofs.type_block_at token StInstance.tok_class t_text StInstance.tok_num StInstance.ty_name StInstance.is_int_ty). Qed.
